@@ -222,6 +222,18 @@ def run(ctx):
     zsh = fx.bodies(r"^clap_complete::aot::shells::zsh::")
     zw = [(v, c) for v, c in lits_of(zsh, r"^str::replace$", 2) if const_of(c.body, c.args[1]) == " "]
     res.floor("R16.3", "zsh name mangling sites", len(zw), 3)
+    # zsh reader: parser_of is an exhaustive search of the tree by bin_name (its callers expect() the result)
+    po = fx.body("clap_complete::aot::shells::zsh::parser_of")
+    recs = po.calls_to(r"zsh::parser_of$")
+    require(fx, res, "R16.3", "zsh-parser_of-exhaustive", po, r"zsh::parser_of$", len(recs), 1, "zsh::parser_of no longer descends into the subcommands")
+    for c in recs:
+        bg = [g for g in guard_strs(po, c.bb) if re.match(r"^[TF]:", g) and not re.match(r"^F:eq\(bin_name,", g)]
+        res.check(not bg and expr(po, c.args[0]) == "next(into_iter(get_subcommands(parent)))#Some.0" and expr(po, c.args[1]) == "bin_name", "R16.3", "zsh-parser_of-exhaustive", c.where(),
+                  "every subcommand is searched", "zsh::parser_of searches a subcommand only under %s: a command whose path merely shares a prefix with a sibling is not found and the generator's expect() panics" % bg)
+    early = [d for d in po.def_sites(0) if isinstance(d[3], dict) and d[3]["k"] == "agg" and d[3].get("variant") == "Some" and "parser_of(" in expr(po, d[3]["ops"][0])]
+    other = [d for d in po.def_sites(0) if not isinstance(d[3], dict) and d[3].callee_q.endswith("parser_of")]
+    res.check(not other and all(any(re.match(r"^V1:parser_of\(", g) for g in guard_strs(po, d[0])) for d in early), "R16.3", "zsh-parser_of-continues-on-none", po.where(),
+              "a branch's result ends the search only when it is Some", "zsh::parser_of returns a branch's result even when it is None (the remaining siblings are not searched)")
     zs = set(v for v, _ in zw)
     res.check(zs <= {"__", "-", "\\ "} and sum(1 for v, _ in zw if v == "__") >= 3, "R16.3", "zsh-separator", "clap_complete::aot::shells::zsh", "zsh function names: replace(' ', %s)" % sorted(zs), "zsh name mangling uses inconsistent separators %s" % sorted(zs))
 
